@@ -254,6 +254,10 @@ def run(ctx):
                          'distinct = distinct case dicts; non-trivial = converged fit with a non-default ingredient (weights, n <= m, constraints, non-default lam, non-canonical pair)')
     ncase = 52 if ctx.tier == 'quick' else 650
     cases = fitgen.gen_cases(ctx.subrng('cases'), ncase, ctx.tier)
+    # in every run: one badly scaled but well-posed design (raw timestamp in a linear term) per class / link pair
+    cases += [dict(c, forced='huge-linear', feature_units='huge', history='none', constraints=False,
+                   n_mode=('mid' if k_ % 2 else 'large'), lam_mode='default', y_scale=1.0)
+              for k_, c in enumerate(cases[:len(fitgen.PAIRS)])]
     with mp.get_context('fork').Pool(min(16, len(cases))) as pool:
         results = pool.map(_worker, cases, chunksize=1)
     ops, idx = [], []
